@@ -260,6 +260,30 @@ def seq_worker(args):
         for _ in range(nseq):
             seq = [rng.choice(pool) for _ in range(rng.randrange(1, 9))]
             work.append((seq, rng, ((True, True), (False, True), (True, False), (False, False)) if rng.random() < 0.25 else ((True, True),)))
+        # (C) x86 / x64: overlapping stores and loads through one base register with nearby displacements and mixed
+        # widths (store; overlapping store; store again; load) - the orders in which a block map must replay its writes
+        if name in ("x86_x86", "x64_x64"):
+            for _ in range(max(24, nseq // 4)):
+                base = rng.choice([3, 6, 7])
+                code = []
+                for _k in range(rng.randrange(3, 7)):
+                    disp = rng.choice([0, 0, 1, 2, 3, 4, 0xFE, 0xFC])
+                    reg = rng.choice([0, 1, 2])
+                    w = rng.choice([8, 16, 32])
+                    opc = {8: b"\x88", 16: b"\x66\x89", 32: b"\x89"}[w] if rng.random() < 0.75 else {8: b"\x8a", 16: b"\x66\x8b", 32: b"\x8b"}[w]
+                    code.append(opc + bytes([0x40 | (reg << 3) | base, disp]))
+                seq = []
+                for b in code:
+                    isa.reset_pending(dis)
+                    try:
+                        i = dis(b + b"\x90" * ml)
+                    except Exception:
+                        i = None
+                    isa.reset_pending(dis)
+                    if i is not None:
+                        seq.append(i)
+                if len(seq) >= 3:
+                    work.append((seq, rng, ((True, True), (False, True))))
         for seq, rng, cfgs in work:
             for cfg in cfgs:
                 conf.Cas.noaliasing, conf.Cas.memtrace = cfg
